@@ -163,7 +163,11 @@ func DebugHistScenario(name string, idx int, args []string) {
 	case "C03":
 		sc = c03Scenarios()[idx]
 	default:
-		sc = c01Scenarios(true)[idx]
+		if f, ok := debugScenarios[name]; ok {
+			sc = f()[idx]
+		} else {
+			sc = c01Scenarios(true)[idx]
+		}
 	}
 	traceOn = true
 	r := runHist(sc, args, sc.Drain)
@@ -176,3 +180,13 @@ func DebugHistScenario(name string, idx int, args []string) {
 	}
 	r.w.Close()
 }
+
+func init() {
+	debugScenarios["C06"] = c06Scenarios
+	debugScenarios["C07"] = c07Scenarios
+	debugScenarios["C14"] = c14Scenarios
+	debugScenarios["C05"] = c05NodeScenarios
+	debugScenarios["C11"] = c11Scenarios
+}
+
+var debugScenarios = map[string]func() []histParams{}
